@@ -1094,7 +1094,12 @@ class MultiTestResult(TestResult):
     def __init__(self, *results):
         # Setup _results first, as the base class __init__ assigns to failfast.
         self._results = list(map(ExtendedToOriginalDecorator, results))
+        # The base class __init__ assigns its default to failfast, which is
+        # forwarded to the wrapped results: keep what they were set up with.
+        failfast = [result.failfast for result in self._results]
         super().__init__()
+        for result, value in zip(self._results, failfast):
+            result.failfast = value
 
     def __repr__(self):
         return "<{} ({})>".format(
